@@ -449,6 +449,8 @@ def gen_plan(seed: int, cls: str) -> dict:
         ops.extend(_role_collision_scenario(ro, sym, roots, knobs, hspecs, nroot))
     if ro.random() < 0.5:
         ops.extend(_serialise_history_scenario(ro, sym, roots, ninst))
+    if roots and ro.random() < 0.3:
+        ops.extend(_equal_values_scenario(ro, sym, roots, pick_custom))
     if knobs['faults'] and roots:
         # a handler that raises part-way through converter construction, then the same call again, then others
         for _ in range(ro.choice([1, 2])):
@@ -461,6 +463,35 @@ def gen_plan(seed: int, cls: str) -> dict:
                             {'op': 'convert', 'root': r, 'data': data, 'custom': spec},
                             {'op': 'convert', 'root': r, 'data': data, 'custom': spec}]
     return {'prop': PROP, 'seed': seed, 'cls': cls, 'knobs': knobs, 'ops': ops}
+
+
+EQUAL_FAMILIES = [[0, False, 0.0, -0.0], [1, True, 1.0], [2, 2.0], ['1', 1, 1.0], ['', 0, None, []], ['a', 'a ', ' a'],
+                  [[1], [True], [1.0], (1,)], [{'x': 1}, {'x': True}, {'x': 1.0}], [b'a', 'a', bytearray(b'a')]]
+
+
+def _equal_values_scenario(ro, sym, roots, pick_custom):
+    """
+    Values that compare equal (or nearly so) but are different: 1 / True / 1.0, 0 / False / -0.0 ... sent through one
+    memoised converter one after another, in a random order: a converter that remembers anything *per value* (a parse
+    cache, an interned result) answers the later ones from the first.  Also placed inside the type's own valid shape.
+    """
+    r = ro.choice(sorted(roots))
+    fam = list(ro.choice(EQUAL_FAMILIES))
+    ro.shuffle(fam)
+    custom = pick_custom()
+    out = []
+    shape = tg.sample_value(roots[r], sym, ro, valid_p=1.0)
+    for v in fam:
+        data = v
+        if isinstance(shape, list) and ro.random() < 0.5:
+            data = [v] * max(1, min(len(shape), 2))
+        elif isinstance(shape, dict) and shape and ro.random() < 0.5:
+            data = {k: v for k in list(shape)[:2]}
+        try:
+            out.append({'op': 'convert', 'root': r, 'data': tg.enc(data), 'custom': custom})
+        except HarnessError:
+            pass
+    return out
 
 
 def _serialise_history_scenario(ro, sym, roots, ninst):
